@@ -36,6 +36,27 @@
 (*      taken over by a client whose header tip is on the old branch below   *)
 (*      its tip (netsim dates the last header of every reorg branch of >= 4   *)
 (*      blocks before its parent)                                            *)
+(*  NonFullNodeBecomesSyncPeerThenLeaves   a connected peer that does not     *)
+(*      advertise NODE_NETWORK (kind "nonet": not a sync candidate) follows   *)
+(*      the honest chain; the client, current on a shorter valid chain, takes *)
+(*      a reorganisation from it (the sender of an accepted reorganisation    *)
+(*      becomes the sync peer whoever it is) and catches up with it; that     *)
+(*      peer leaves for good while no other peer following the honest chain   *)
+(*      is connected; the honest chain grows unseen; then the honest full     *)
+(*      node, ahead of the client, connects.  Realised with the unseen growth *)
+(*      longer than one headers message (> 2000 blocks), so that the client   *)
+(*      needs a working sync peer to catch up, and with the node of the       *)
+(*      non-full peer shut down (no redial succeeds).                         *)
+(*  ReorgAnnouncedByInvBeyondOneHeadersMessage   long chain (realised with    *)
+(*      2060-2300 blocks: more than one headers message); the client is       *)
+(*      current on the honest chain, block and filter headers, when the       *)
+(*      honest side replaces its last block(s) by a branch one block longer   *)
+(*      (realised 1-3 blocks deep) and announces the new tip by inv only; the  *)
+(*      client takes it over; later the chain grows (realised: by one block), *)
+(*      again announced by inv.  The fork point can only be found through the *)
+(*      block locator of the client's getheaders: a node that finds no        *)
+(*      locator entry on its chain answers from genesis, and 2000 headers     *)
+(*      from genesis end below the fork.                                      *)
 (***************************************************************************)
 EXTENDS Client
 
@@ -45,6 +66,10 @@ HonestTipH == br[hb].tip
 Behind == hdrh < HonestTipH
 HonestUpBesides(q) == \E p \in Peers \ {q} : kind[p] = "honest" /\ ps[p] = "up"
 Higher(p) == \A h \in Peers : kind[h] = "honest" => PTip(p) > PTip(h)
+\* a connected peer other than q that follows the honest chain (and announces its blocks)
+Follower(q) == \E p \in Peers \ {q} : pv[p] = 0 /\ ps[p] = "up" /\ HdrServer(kind[p])
+\* the client's header tip is the honest tip
+OnHonestTip == hdrh = HonestTipH /\ hdrb = OwnerAt(br, hb, hdrh)
 
 ShapeStep ==
   LET a == act' IN
@@ -74,6 +99,28 @@ ShapeStep ==
       THEN {"ReorgTakenOverWhileBehind"} ELSE {})
   \cup (IF a.op = "Extend" /\ sp = 0 /\ hdrh > 0 /\ \E p \in Peers : kind[p] = "honest" /\ ps[p] = "down"
       THEN {"ExtendWhileSyncPeerGone"} ELSE {})
+  \* --- NonFullNodeBecomesSyncPeerThenLeaves
+  \cup (IF a.op = "SyncHdr" /\ kind[a.p] = "nonet" /\ sp # a.p /\ sp' = a.p /\ hdrh > 0 /\ Cur
+           /\ ForkH(hdrb, hdrh, hdrb', hdrh') < hdrh /\ hdrh' = HonestTipH
+      THEN {"nonfullsync"} ELSE {})
+  \cup (IF a.op = "Drop" /\ a.p = sp /\ kind[a.p] = "nonet" /\ "nonfullsync" \in shape /\ ~("nonfullleft" \in shape)
+           /\ hdrh = HonestTipH /\ ~Follower(a.p)
+      THEN {"nonfullleft"} ELSE {})
+  \cup (IF a.op = "Extend" /\ "nonfullleft" \in shape /\ ~Follower(0) /\ \A p \in Peers : kind[p] = "nonet" => ps[p] # "up"
+      THEN {"grewunseen"} ELSE {})
+  \cup (IF a.op = "Up" /\ kind[a.p] = "honest" /\ "grewunseen" \in shape /\ PTip(a.p) > hdrh
+           /\ hdrb = OwnerAt(br, hb, hdrh) /\ ~Follower(a.p) /\ \A p \in Peers : kind[p] = "nonet" => ps[p] # "up"
+      THEN {"NonFullNodeBecomesSyncPeerThenLeaves"} ELSE {})
+  \* --- ReorgAnnouncedByInvBeyondOneHeadersMessage
+  \cup (IF a.op = "Reorg" /\ long = 1 /\ OnHonestTip /\ flt = hdrh /\ sp # 0 /\ kind[sp] = "honest" /\ ps[sp] = "up"
+      THEN {"invreorg"} ELSE {})
+  \cup (IF a.op = "SyncHdr" /\ kind[a.p] = "honest" /\ "invreorg" \in shape /\ ~("invext" \in shape)
+           /\ ForkH(hdrb, hdrh, hdrb', hdrh') < hdrh /\ hdrh' = HonestTipH
+      THEN {"invreorgtaken"} ELSE {})
+  \cup (IF a.op = "Extend" /\ "invreorgtaken" \in shape /\ OnHonestTip /\ sp # 0 /\ kind[sp] = "honest" /\ ps[sp] = "up"
+      THEN {"invext"} ELSE {})
+  \cup (IF a.op = "SyncHdr" /\ kind[a.p] = "honest" /\ "invext" \in shape /\ hdrh' = HonestTipH /\ hdrh' > hdrh
+      THEN {"ReorgAnnouncedByInvBeyondOneHeadersMessage"} ELSE {})
 
 SInit == Init /\ shape = {}
 SNext == Next /\ shape' = shape \cup ShapeStep
